@@ -2381,6 +2381,13 @@ class DiskObjectStore(PackBasedObjectStore):
                 # renames this same file, which a live mapping blocks on
                 # Windows. PackData.close() leaves f open for it to finish.
                 with PackData(path, file=f, object_format=self.object_format) as pd:
+                    # Verify the trailing checksum first, as add_thin_pack
+                    # and MemoryObjectStore do. The indexer never looks at
+                    # it and _complete_pack overwrites the last bytes of the
+                    # file with a fresh one, so a pack that lost part of its
+                    # trailer, or has bytes appended, would be "repaired"
+                    # into a corrupt pack instead of being rejected.
+                    pd.check()
                     indexer = PackIndexer.for_pack_data(
                         pd,
                         resolve_ext_ref=self.get_raw,
